@@ -75,3 +75,8 @@ def run(tier):
                      "undocumented behaviour (bool ordering, arrays in interpolation, round() on ties, find() offsets after non-ASCII text, empty replace/split pattern, dynamic type confusion) is 'Unspecified': any reported outcome accepted",
                      "deviations only with the frame arena are C02's, only with the plan C03's, crashes C06's"]
     return v.finish()
+
+
+def replay(path):
+    import replaytool
+    return replaytool.replay("C01", path)
